@@ -363,6 +363,16 @@ def r03_4(ck, sa):
                     un = cfg.node(n)
                     if un is None or un in rounds or un == dn:
                         continue
+                    # a test that only decides whether the value is
+                    # re-manufactured in its own body is not a use
+                    ust = cfg.info[un]['stmt']
+                    if cfg.info[un]['kind'] == 'test' and isinstance(
+                            ust, ast.If) and any(
+                            isinstance(x, (ast.Assign, ast.AugAssign))
+                            and any(A.is_name(t, name)
+                                    for t in A.assigned_targets(x))
+                            for b in ust.body for x in ast.walk(b)):
+                        continue
                     if any(dd.stmt is d.stmt
                            for dd in reaching(f.node).at(n, name)):
                         uses.add(un)
